@@ -555,7 +555,11 @@ _public_ int m_mod_set_tokenbucket(m_mod_t *mod, uint32_t rate, uint64_t burst) 
     M_MOD_ASSERT(mod);
     M_PARAM_ASSERT(rate <= BILLION);
 
-    // src_deregister and src_register already consume a token
+    /*
+     * Managing the internal refill timer must neither be refused by the
+     * current bucket nor be charged to the new one: suspend the limit meanwhile.
+     */
+    mod->tb.tokens = UINT64_MAX;
 
     /* If it was already set, remove old timer */
     if (mod->tb.timer.ns != 0) {
@@ -574,10 +578,11 @@ _public_ int m_mod_set_tokenbucket(m_mod_t *mod, uint32_t rate, uint64_t burst) 
     // Store new values and create new token bucket timer src
     mod->tb.rate = rate;
     mod->tb.burst = burst;
-    mod->tb.tokens = burst;
     mod->tb.timer.clock_id = CLOCK_MONOTONIC;
     mod->tb.timer.ns = BILLION / rate;
-    return m_mod_src_register_tmr(mod, &mod->tb.timer, M_SRC_INTERNAL | M_SRC_PRIO_HIGH, &mod->tb);
+    int ret = m_mod_src_register_tmr(mod, &mod->tb.timer, M_SRC_INTERNAL | M_SRC_PRIO_HIGH, &mod->tb);
+    mod->tb.tokens = burst;
+    return ret;
 }
 
 _public_ __attribute__((format (printf, 2, 3))) int m_mod_log(const m_mod_t *mod, const char *fmt, ...) {
